@@ -64,46 +64,64 @@ func spansWellFormed(offsets *[]ansiOffset, nrunes int) string {
 	return ""
 }
 
+// fragments that put the edges of every character class of the specification
+// (printable 0x20-0x7e, parameter bytes, final bytes, terminators) into sequences
+var c11Fragments = []string{"\x1b]", "\x1b[", "\x1b", "8;;", "8;id=1;", "0;", "133:", "\x07", "\x1b\\", "~", " ", "\x7f", "\x1f", "\x80", "a", "z", "A", "Z", "@", "`", "{", "/", "0", "9", ":", ";", "?", "<", "m", "\x08", "é", "(", ")", "B", "\x0e", "\x0f", "[", "\\"}
+
 var c11Bytes = []byte("\x1b\x1b\x1b[[]]()\\;;::??0123456789mmKHABl \x07\x08\x08\x0e\x0f\nabc\xc3\xa9\xe6\xbc\xa2\xff\x80~")
 
+// c11BytesVerdict is the oracle for one arbitrary byte string: "" when the
+// stripped text and the colour spans are what the specification demands.
+func c11BytesVerdict(s string, carried *ansiState) string {
+	trimmed, offsets, _ := extractColor(s, carried, nil)
+	want := oracle.StripAnsi(s)
+	nseq := len(oracle.AnsiRe.FindAllStringIndex(s, -1))
+	nt := nseq >= 2 && len(want) > 0
+	vstat.Case("C11/bytes", s, nt, fmt.Sprintf("sequences=%d", imin(nseq, 5)))
+	if nt && vstat.WantSample("C11/bytes") {
+		vstat.Sample("C11/bytes", map[string]interface{}{"input": fmt.Sprintf("%q", s), "stripped": fmt.Sprintf("%q", trimmed)})
+	}
+	if trimmed != want {
+		return fmt.Sprintf("input %q: stripped text %q, specification gives %q", s, trimmed, want)
+	}
+	if !oracle.HasControl(s) && trimmed != s {
+		return fmt.Sprintf("input %q has no control characters but was changed to %q", s, trimmed)
+	}
+	nrunes := utf8.RuneCountInString(trimmed)
+	if msg := spansWellFormed(offsets, nrunes); msg != "" {
+		// Known finding: an invalid UTF-8 byte sequence whose halves are
+		// separated by an escape sequence recombines into fewer characters
+		// after stripping; spans are counted on the pieces.
+		if pc := pieceRuneCount(s); !utf8.ValidString(s) && pc > nrunes && spansWellFormed(offsets, pc) == "" &&
+			vstat.Known("C11", kfRecombine, fmt.Sprintf("input %q stripped %q: %s", s, trimmed, msg)) {
+			return ""
+		}
+		return fmt.Sprintf("input %q (stripped %q): %s; spans %v", s, trimmed, msg, *offsets)
+	}
+	return ""
+}
+
+func propC11ArbitraryBytes(t *rapid.T) {
+	var s string
+	switch rapid.IntRange(0, 4).Draw(t, "mode") {
+	case 0:
+		s = string(rapid.SliceOfN(rapid.Byte(), 0, 24).Draw(t, "raw"))
+	case 1:
+		s = strings.Join(rapid.SliceOfN(rapid.SampledFrom(c11Fragments), 0, 12).Draw(t, "fragments"), "")
+	default:
+		s = string(rapid.SliceOfN(rapid.SampledFrom(c11Bytes), 0, 30).Draw(t, "biased"))
+	}
+	var carried *ansiState
+	if rapid.IntRange(0, 3).Draw(t, "carry") == 0 {
+		carried = &ansiState{fg: 3, bg: -1, attr: tui.Bold, lbg: -1}
+	}
+	if msg := c11BytesVerdict(s, carried); msg != "" {
+		t.Fatalf("%s", msg)
+	}
+}
+
 func TestVerifC11_ArbitraryBytes(t *testing.T) {
-	rapid.Check(t, func(t *rapid.T) {
-		var s string
-		if rapid.IntRange(0, 3).Draw(t, "mode") == 0 {
-			s = string(rapid.SliceOfN(rapid.Byte(), 0, 24).Draw(t, "raw"))
-		} else {
-			s = string(rapid.SliceOfN(rapid.SampledFrom(c11Bytes), 0, 30).Draw(t, "biased"))
-		}
-		var carried *ansiState
-		if rapid.IntRange(0, 3).Draw(t, "carry") == 0 {
-			carried = &ansiState{fg: 3, bg: -1, attr: tui.Bold, lbg: -1}
-		}
-		trimmed, offsets, _ := extractColor(s, carried, nil)
-		want := oracle.StripAnsi(s)
-		nseq := len(oracle.AnsiRe.FindAllStringIndex(s, -1))
-		nt := nseq >= 2 && len(want) > 0
-		vstat.Case("C11/bytes", s, nt, fmt.Sprintf("sequences=%d", imin(nseq, 5)))
-		if nt && vstat.WantSample("C11/bytes") {
-			vstat.Sample("C11/bytes", map[string]interface{}{"input": fmt.Sprintf("%q", s), "stripped": fmt.Sprintf("%q", trimmed)})
-		}
-		if trimmed != want {
-			t.Fatalf("input %q: stripped text %q, specification gives %q", s, trimmed, want)
-		}
-		if !oracle.HasControl(s) && trimmed != s {
-			t.Fatalf("input %q has no control characters but was changed to %q", s, trimmed)
-		}
-		nrunes := utf8.RuneCountInString(trimmed)
-		if msg := spansWellFormed(offsets, nrunes); msg != "" {
-			// Known finding: an invalid UTF-8 byte sequence whose halves are
-			// separated by an escape sequence recombines into fewer characters
-			// after stripping; spans are counted on the pieces.
-			if pc := pieceRuneCount(s); !utf8.ValidString(s) && pc > nrunes && spansWellFormed(offsets, pc) == "" &&
-				vstat.Known("C11", kfRecombine, fmt.Sprintf("input %q stripped %q: %s", s, trimmed, msg)) {
-				return
-			}
-			t.Fatalf("input %q (stripped %q): %s; spans %v", s, trimmed, msg, *offsets)
-		}
-	})
+	rapid.Check(t, propC11ArbitraryBytes)
 }
 
 const kfRecombine = "invalid-utf8-recombined-by-stripping"
@@ -175,7 +193,11 @@ func genPieces(t *rapid.T, maxPieces int) []oracle.Piece {
 		case 7:
 			if rapid.Bool().Draw(t, "open") {
 				uri := rapid.SampledFrom([]string{"http://a", "file:///x y", "u;v", "h"}).Draw(t, "uri")
-				params := rapid.SampledFrom([]string{"", "id=1", "a=b:c=d"}).Draw(t, "params")
+				if rapid.Bool().Draw(t, "printableURI") {
+					// any printable ASCII character may occur in the payload
+					uri = string(rapid.SliceOfN(rapid.ByteRange(0x20, 0x7e), 1, 6).Draw(t, "uriBytes"))
+				}
+				params := rapid.SampledFrom([]string{"", "id=1", "a=b:c=d", "id=~x_y.z-0"}).Draw(t, "params")
 				st := rapid.SampledFrom([]string{"\x1b\\", "\x07"}).Draw(t, "st")
 				ps = append(ps, oracle.Piece{Kind: oracle.POSC8Open, URL: uri, Params: params, Text: "\x1b]8;" + params + ";" + uri + st})
 			} else {
@@ -183,6 +205,14 @@ func genPieces(t *rapid.T, maxPieces int) []oracle.Piece {
 				ps = append(ps, oracle.Piece{Kind: oracle.POSC8Close, Text: "\x1b]8;;" + st})
 			}
 		case 8:
+			if rapid.IntRange(0, 3).Draw(t, "oscOther") == 0 {
+				// a non-hyperlink OSC sequence with an arbitrary printable payload
+				num := rapid.SampledFrom([]string{"0", "2", "7", "52", "133", "1337"}).Draw(t, "oscNum")
+				payload := string(rapid.SliceOfN(rapid.ByteRange(0x20, 0x7e), 1, 8).Draw(t, "oscPayload"))
+				st := rapid.SampledFrom([]string{"\x1b\\", "\x07"}).Draw(t, "st")
+				ps = append(ps, oracle.Piece{Kind: oracle.POther, Text: "\x1b]" + num + rapid.SampledFrom([]string{";", ":"}).Draw(t, "oscSep") + payload + st})
+				break
+			}
 			ps = append(ps, oracle.Piece{Kind: oracle.POther, Text: rapid.SampledFrom(otherSeqs).Draw(t, "other")})
 		case 9: // a character struck out by a following backspace
 			r := rapid.SampledFrom([]rune("axé漢 ")).Draw(t, "struck")
@@ -208,63 +238,65 @@ func perRuneStyles(offsets *[]ansiOffset, n int) []oracle.CellStyle {
 	return out
 }
 
+func propC11Grammar(t *rapid.T) {
+	nlines := rapid.IntRange(1, 3).Draw(t, "nlines")
+	var state *ansiState
+	carried := oracle.DefaultStyle()
+	key := ""
+	nseq, afterSeq := 0, false
+	var lastIn, lastOut string
+	for li := 0; li < nlines; li++ {
+		pieces := genPieces(t, 10)
+		in := oracle.RenderPieces(pieces)
+		key += in + "\n"
+		wantText, wantStyles, end := oracle.InterpretPieces(pieces, carried)
+		trimmed, offsets, newState := extractColor(in, state, nil)
+		seenSeq := false
+		for _, p := range pieces {
+			if p.Kind != oracle.PText {
+				nseq++
+				seenSeq = true
+			} else if seenSeq {
+				afterSeq = true
+			}
+		}
+		lastIn, lastOut = in, trimmed
+		if trimmed != wantText {
+			t.Fatalf("line %d %q: stripped text %q, the text pieces are %q", li, in, trimmed, wantText)
+		}
+		if ref := oracle.StripAnsi(in); ref != wantText {
+			t.Fatalf("generator/specification mismatch on %q: %q vs %q", in, ref, wantText)
+		}
+		n := utf8.RuneCountInString(trimmed)
+		if msg := spansWellFormed(offsets, n); msg != "" {
+			t.Fatalf("line %d %q: %s", li, in, msg)
+		}
+		got := perRuneStyles(offsets, n)
+		for k := range got {
+			if got[k] != wantStyles[k] {
+				t.Fatalf("line %d %q (carried-in style %v): character %d (%q) is shown as %v, a terminal shows %v", li, in, carried, k, []rune(trimmed)[k], got[k], wantStyles[k])
+			}
+		}
+		var gotEnd oracle.CellStyle
+		if newState == nil {
+			gotEnd = oracle.DefaultStyle()
+		} else {
+			gotEnd = toOracleStyle(*newState)
+		}
+		if gotEnd != end {
+			t.Fatalf("line %d %q (carried-in style %v): style carried to the next line is %v, a terminal carries %v", li, in, carried, gotEnd, end)
+		}
+		state, carried = newState, end
+	}
+	nt := nseq >= 2 && afterSeq
+	vstat.Case("C11/grammar", key, nt, fmt.Sprintf("lines=%d", nlines))
+	if nt && vstat.WantSample("C11/grammar") {
+		vstat.Sample("C11/grammar", map[string]interface{}{"last_line": fmt.Sprintf("%q", lastIn), "stripped": lastOut})
+	}
+}
+
 func TestVerifC11_Grammar(t *testing.T) {
-	rapid.Check(t, func(t *rapid.T) {
-		nlines := rapid.IntRange(1, 3).Draw(t, "nlines")
-		var state *ansiState
-		carried := oracle.DefaultStyle()
-		key := ""
-		nseq, afterSeq := 0, false
-		var lastIn, lastOut string
-		for li := 0; li < nlines; li++ {
-			pieces := genPieces(t, 10)
-			in := oracle.RenderPieces(pieces)
-			key += in + "\n"
-			wantText, wantStyles, end := oracle.InterpretPieces(pieces, carried)
-			trimmed, offsets, newState := extractColor(in, state, nil)
-			seenSeq := false
-			for _, p := range pieces {
-				if p.Kind != oracle.PText {
-					nseq++
-					seenSeq = true
-				} else if seenSeq {
-					afterSeq = true
-				}
-			}
-			lastIn, lastOut = in, trimmed
-			if trimmed != wantText {
-				t.Fatalf("line %d %q: stripped text %q, the text pieces are %q", li, in, trimmed, wantText)
-			}
-			if ref := oracle.StripAnsi(in); ref != wantText {
-				t.Fatalf("generator/specification mismatch on %q: %q vs %q", in, ref, wantText)
-			}
-			n := utf8.RuneCountInString(trimmed)
-			if msg := spansWellFormed(offsets, n); msg != "" {
-				t.Fatalf("line %d %q: %s", li, in, msg)
-			}
-			got := perRuneStyles(offsets, n)
-			for k := range got {
-				if got[k] != wantStyles[k] {
-					t.Fatalf("line %d %q (carried-in style %v): character %d (%q) is shown as %v, a terminal shows %v", li, in, carried, k, []rune(trimmed)[k], got[k], wantStyles[k])
-				}
-			}
-			var gotEnd oracle.CellStyle
-			if newState == nil {
-				gotEnd = oracle.DefaultStyle()
-			} else {
-				gotEnd = toOracleStyle(*newState)
-			}
-			if gotEnd != end {
-				t.Fatalf("line %d %q (carried-in style %v): style carried to the next line is %v, a terminal carries %v", li, in, carried, gotEnd, end)
-			}
-			state, carried = newState, end
-		}
-		nt := nseq >= 2 && afterSeq
-		vstat.Case("C11/grammar", key, nt, fmt.Sprintf("lines=%d", nlines))
-		if nt && vstat.WantSample("C11/grammar") {
-			vstat.Sample("C11/grammar", map[string]interface{}{"last_line": fmt.Sprintf("%q", lastIn), "stripped": lastOut})
-		}
-	})
+	rapid.Check(t, propC11Grammar)
 }
 
 func TestVerifC11_Regress(t *testing.T) {
